@@ -534,19 +534,29 @@ WHAT = {
 
 def correspondence(ctx):
     core.assert_repo_loaded()
-    ctx.extra["proved_class_cases"] = "see in_class_cases: the node-level theorems' hypotheses hold at every node; the workflow-level agreement there is checked, not proved"
+    ctx.extra["proved_class_cases"] = (
+        "see in_class_cases: the node-level theorems' hypotheses hold at every node; the workflow-level agreement there "
+        "is checked on every case, not proved"
+    )
     known = {f["id"] for f in ctx.known()}
-    # corpus first: witnesses of the known findings, then regression cases that must pass
-    for rec in load_corpus("findings.jsonl"):
-        res = run_cases(ctx, [dict(rec["case"], shape="corpus")], label="corpus")
-        if rec["id"] in known and res:
-            c, i, spec, model, v = res[0]
-            kind = kind_of(i, spec)
-            ctx.finding(rec["id"], kind != "ok", f"witness gives {kind} (expected {rec.get('expect')}); model predicts {kind_of(model, spec) if model else 'n/a'}")
-    run_cases(ctx, [dict(r["case"], shape="corpus") for r in load_corpus("regressions.jsonl")], label="corpus")
+    # corpus first: witnesses of the known findings, then regression cases that must pass; then seeded generation.
+    # One batch = one driver start (the Lean driver costs seconds to start, nothing per case).
+    findings = load_corpus("findings.jsonl")
+    cases = [dict(r["case"], shape="corpus", corpus_id=r["id"]) for r in findings]
+    cases += [dict(r["case"], shape="corpus", corpus_id=r["id"]) for r in load_corpus("regressions.jsonl")]
     n = ctx.pick(170, 3600)
-    cases = [gen_case(ctx.rng, max_jobs=ctx.pick(40, 90)) for _ in range(n)]
+    cases += [gen_case(ctx.rng, max_jobs=ctx.pick(40, 90)) for _ in range(n)]
     res = run_cases(ctx, cases)
+    by_id = {c.get("corpus_id"): (c, i, spec, model) for c, i, spec, model, _ in res if c.get("corpus_id")}
+    for rec in findings:
+        if rec["id"] in known and rec["id"] in by_id:
+            c, i, spec, model = by_id[rec["id"]]
+            kind = kind_of(i, spec)
+            ctx.finding(
+                rec["id"],
+                kind != "ok",
+                f"witness gives {kind} (recorded: {rec.get('expect')}); model predicts {kind_of(model, spec) if model else 'n/a'}",
+            )
     # minimise what is about to be reported (bounded effort), so that the replay is small
     if ctx.violations:
         _minimise(ctx)
